@@ -17,14 +17,19 @@ import BronVerif.Model.Access
 import BronVerif.Model.Sharing
 import BronVerif.Lemmas.SharingSpan
 import BronVerif.Lemmas.SharingPoly
+import BronVerif.Lemmas.SharingThreshold
+import BronVerif.Lemmas.SharingTree
 /-!
 # C02 — exactly the qualified sets can reconstruct; unqualified sets learn nothing
 
 Property theorems.  The span-programme statements are about an arbitrary matrix `M : Matrix ρ δ F`
 over an arbitrary field with target `e_z` (`Pi.single z 1`); `Model/Sharing.lean` instantiates them
 (`MSP.deal = M·r`, `MSP.reconVector` = a solution `c` of `c·M_S = e₀`, …).  The per-family
-"accepted iff qualified" theorems are about the Mathlib form of the matrices that
-`Model/Access.lean` (`thresholdMSP`, `unanimityMSP`, `cnfMSP`) builds, see the doc comments.
+"accepted iff qualified" theorems come in two forms: about the Mathlib form of the matrices that
+`Model/Access.lean` (`thresholdMSP`, `unanimityMSP`, `cnfMSP`) builds (see the doc comments), and —
+`model_accepts_iff_qualified_threshold`, `lcw_holds` / `model_accepts_iff_qualified_tree` — about the
+executable definitions the driver runs (`thresholdMSP`, `treeMSP`, `MSP.accepts` with the mirrored
+Gauss–Jordan solver whose soundness and completeness are `Props.C20.solveLeft_sound/complete`).
 -/
 namespace BronVerif.Props.C02
 open Matrix BigOperators Polynomial
@@ -190,6 +195,66 @@ example : ∃ c : (({1, 3} : Finset ℕ)) → ZMod 7,
     simp only [Finset.mem_insert, Finset.mem_singleton] at hi
     rcases hi with rfl | rfl | rfl <;> decide
 
+/-- **Threshold, for the executable model.** Under the constructor's guards
+(`Policy.validate`: no ID 0, `2 ≤ t ≤ n`), for shareholder IDs that are distinct and non-zero as
+field elements, the span programme the driver builds (`Model.Access.thresholdMSP`, mirror of
+`threshold.InducedMSP`) and tests with the mirrored solver (`MSP.accepts` = `solveLeft` against
+`e₀`, sound and complete by `Props.C20.solveLeft_sound/complete`) accepts a set `S` of shareholders
+iff the policy declares it qualified (`Policy.isQualified`: at least `t` distinct members). -/
+theorem model_accepts_iff_qualified_threshold {F : Type} [Field F] [DecidableEq F] (t : ℕ)
+    (ids S : List ℕ) (hv : (BronVerif.Access.Policy.threshold t ids).validate = .ok ())
+    (hid : Set.InjOn (Nat.cast : ℕ → F) {i | i ∈ ids}) (h0 : ∀ i ∈ ids, (i : F) ≠ 0)
+    (hS : ∀ i ∈ S, i ∈ ids) :
+    (BronVerif.Access.thresholdMSP (F := F) t ids).accepts S =
+      (BronVerif.Access.Policy.threshold t ids).isQualified S := by
+  have ht : 2 ≤ t := by
+    simp only [BronVerif.Access.Policy.validate] at hv
+    by_contra hlt
+    have : t < 2 := by omega
+    split_ifs at hv
+  rw [BronVerif.Lemmas.SharingThreshold.thresholdMSP_accepts t ids S (by omega) hid h0 hS]
+  unfold BronVerif.Access.Policy.isQualified
+  have hsub : BronVerif.Access.subset (BronVerif.Access.dedup S) ids = true := by
+    unfold BronVerif.Access.subset
+    rw [List.all_eq_true]
+    intro x hx
+    rw [List.contains_iff_mem]
+    exact hS x (BronVerif.Lemmas.SharingThreshold.mem_dedup.mp hx)
+  simp only [hsub, Bool.and_true]
+
+/-- the same with the size written out: accepted iff `t ≤ |S|` (distinct members) -/
+theorem model_accepts_threshold_card {F : Type} [Field F] [DecidableEq F] (t : ℕ)
+    (ids S : List ℕ) (ht : 0 < t)
+    (hid : Set.InjOn (Nat.cast : ℕ → F) {i | i ∈ ids}) (h0 : ∀ i ∈ ids, (i : F) ≠ 0)
+    (hS : ∀ i ∈ S, i ∈ ids) :
+    (BronVerif.Access.thresholdMSP (F := F) t ids).accepts S =
+      decide (t ≤ (BronVerif.Access.dedup S).length) :=
+  BronVerif.Lemmas.SharingThreshold.thresholdMSP_accepts t ids S ht hid h0 hS
+
+/-- non-vacuity: (2,3) over `ZMod 7`, ids `[1,2,3]`: `[1,3]` is accepted -/
+example : (BronVerif.Access.thresholdMSP (F := ZMod 7) 2 [1, 2, 3]).accepts [1, 3] = true := by
+  rw [model_accepts_iff_qualified_threshold (F := ZMod 7) 2 [1, 2, 3] [1, 3] (by decide) ?_ ?_ (by decide)]
+  · decide
+  · intro a ha b hb h
+    simp only [List.mem_cons, List.not_mem_nil, or_false, Set.mem_ofPred_eq] at ha hb
+    rcases ha with rfl | rfl | rfl <;> rcases hb with rfl | rfl | rfl <;>
+      first | rfl | (exfalso; revert h; decide)
+  · intro i hi
+    simp only [List.mem_cons, List.not_mem_nil, or_false] at hi
+    rcases hi with rfl | rfl | rfl <;> decide
+
+/-- … and `[2]` is rejected -/
+example : (BronVerif.Access.thresholdMSP (F := ZMod 7) 2 [1, 2, 3]).accepts [2] = false := by
+  rw [model_accepts_threshold_card (F := ZMod 7) 2 [1, 2, 3] [2] (by decide) ?_ ?_ (by decide)]
+  · decide
+  · intro a ha b hb h
+    simp only [List.mem_cons, List.not_mem_nil, or_false, Set.mem_ofPred_eq] at ha hb
+    rcases ha with rfl | rfl | rfl <;> rcases hb with rfl | rfl | rfl <;>
+      first | rfl | (exfalso; revert h; decide)
+  · intro i hi
+    simp only [List.mem_cons, List.not_mem_nil, or_false] at hi
+    rcases hi with rfl | rfl | rfl <;> decide
+
 /-- **Shamir reconstruction**: Lagrange interpolation at zero over any `≥ t` distinct nodes returns
 the constant term of a polynomial of degree `< t` (`shamir.Reconstruct`, `Model.Sharing.shamirReconstruct`;
 the summands are the additive shares of `Share.ToAdditive`). -/
@@ -335,8 +400,8 @@ open BronVerif.Access
 
 /-- Full statement for gate trees, about the model's `treeMSP` (= `boolexpr.InducedMSP`): over a
 field in which the child positions `0..n` are distinct, the programme accepts exactly the sets of
-shareholders on which the tree evaluates to true.  **Not proved**; established per instance by the
-C02 driver (all subsets of every generated tree, own solver and own rank computation). -/
+shareholders on which the tree evaluates to true.  **Proved**: `lcw_holds` below (arbitrary nesting of
+AND/OR/threshold gates, shareholders labelling several leaves included). -/
 def lcw_statement (F : Type) [Field F] [DecidableEq F] : Prop :=
   ∀ root : Tree, root.valid = true →
     Set.InjOn (Nat.cast : ℕ → F) (Finset.range (root.size + 1)) →
@@ -346,8 +411,7 @@ def lcw_statement (F : Type) [Field F] [DecidableEq F] : Prop :=
 /-- Proved part of `lcw_statement`: a single threshold gate over leaves at child positions `1..n`
 (the first insertion step of Liu–Cao–Wong; `t = 1` is OR, `t = n` is AND).  Its rows are
 `[1, x, …, x^(t-1)]` with `x` the child position, and a set of children spans `e₀` iff it has at
-least `t` members.  Missing for the full statement: the insertion lemma for nested gates (a row is
-replaced by the block `[row | x, …, x^(t-1)]` of its children) and repeated leaves. -/
+least `t` members.  (Kept as the Mathlib-matrix form of one gate; the full statement is `lcw_holds`.) -/
 theorem lcw_single_gate_partial {F : Type*} [Field F] (t n : ℕ) (ht : 0 < t)
     (hinj : Set.InjOn (Nat.cast : ℕ → F) (Finset.Icc 0 n))
     (S : Finset ℕ) (hS : S ⊆ Finset.Icc 1 n) :
@@ -371,6 +435,71 @@ example : ∃ c : (({1, 3} : Finset ℕ)) → ZMod 7,
   obtain ⟨_, ha2⟩ := ha'
   obtain ⟨_, hb2⟩ := hb'
   interval_cases a <;> interval_cases b <;> first | rfl | (exfalso; revert h; decide)
+
+/-- **Liu–Cao–Wong, full statement, for the executable model.**  For every gate tree the
+constructor accepts (`Tree.valid`: positive ids, `0 < t ≤ #children`, no repeated leaf under one
+gate) — AND, OR and threshold gates nested to any depth, the same shareholder at any number of
+leaves — over a field in which the child positions `0 … size` are distinct, the programme
+`treeMSP root` that the driver builds (mirror of `boolexpr.convert`, Algorithm 1 of Liu–Cao–Wong)
+accepts a set `S` of shareholders, as decided by the mirrored solver, iff the tree evaluates to
+true on `S`.  Proof: `Lemmas/SharingTree.lean` (semantic invariant over `lcwRun`: the rows whose
+node evaluates to true span `e₀`; one insertion step = `Lemmas/SharingInsert.insert_spans`). -/
+theorem lcw_holds (F : Type) [Field F] [DecidableEq F] : lcw_statement F := by
+  intro root hv hinj S hS
+  have hok := BronVerif.Lemmas.SharingTree.treeOK_of_valid (F := F) root.size hinj root le_rfl hv
+  refine BronVerif.Lemmas.SharingTree.treeMSP_accepts root hok S ?_
+  intro id hid
+  have := (List.all_eq_true.mp hS) id hid
+  simpa using this
+
+/-- the gate-tree programme accepts exactly the qualified sets (`Policy.isQualified` of a tree policy
+is `Tree.eval`) -/
+theorem model_accepts_iff_qualified_tree {F : Type} [Field F] [DecidableEq F] (root : Tree)
+    (hv : (Policy.tree root).validate = .ok ())
+    (hinj : Set.InjOn (Nat.cast : ℕ → F) (Finset.range (root.size + 1)))
+    (S : List ℕ) (hnd : S.Nodup) (hS : ∀ id ∈ S, id ∈ root.leaves) :
+    (treeMSP (F := F) root).accepts S = (Policy.tree root).isQualified S := by
+  have hvalid : root.valid = true := by
+    unfold Policy.validate at hv
+    by_contra h
+    simp [h] at hv
+  have hdd : dedup S = S := by
+    unfold dedup
+    induction S with
+    | nil => rfl
+    | cons a S ih =>
+      rw [List.eraseDups_cons]
+      have ha : a ∉ S := (List.nodup_cons.mp hnd).1
+      have hf : S.filter (fun b => !b == a) = S := by
+        rw [List.filter_eq_self]
+        intro b hb
+        have : b ≠ a := fun h => ha (h ▸ hb)
+        simpa using this
+      rw [hf, ih (List.nodup_cons.mp hnd).2 (fun id hid => hS id (List.mem_cons_of_mem _ hid))]
+  unfold Policy.isQualified
+  simp only [hdd]
+  exact lcw_holds F root hvalid hinj S (List.all_eq_true.mpr fun id hid => by simpa using hS id hid)
+
+/-- non-vacuity: a 2-of-3 gate whose third child is an AND of the (repeated) leaf 1 and leaf 4, over
+`ZMod 7`: `{1,4}` satisfies the tree (leaf 1 and the AND gate) and is accepted -/
+example : (treeMSP (F := ZMod 7) (.gate 2 [.leaf 1, .leaf 2, .gate 2 [.leaf 1, .leaf 4]])).accepts [1, 4]
+    = true := by
+  rw [lcw_holds (ZMod 7) (.gate 2 [.leaf 1, .leaf 2, .gate 2 [.leaf 1, .leaf 4]]) (by decide) ?_ [1, 4]
+    (by decide)]
+  · decide
+  · intro a ha b hb h
+    have ha' : a < 7 := by
+      have : (Tree.gate 2 [.leaf 1, .leaf 2, .gate 2 [.leaf 1, .leaf 4]]).size = 6 := by decide
+      simpa [this] using ha
+    have hb' : b < 7 := by
+      have : (Tree.gate 2 [.leaf 1, .leaf 2, .gate 2 [.leaf 1, .leaf 4]]).size = 6 := by decide
+      simpa [this] using hb
+    interval_cases a <;> interval_cases b <;> first | rfl | (exfalso; revert h; decide)
+
+example : (treeMSP (F := ZMod 7) (.gate 2 [.leaf 1, .leaf 2, .gate 2 [.leaf 1, .leaf 4]])).accepts [1, 4]
+    = true := by decide +kernel
+example : (treeMSP (F := ZMod 7) (.gate 2 [.leaf 1, .leaf 2, .gate 2 [.leaf 1, .leaf 4]])).accepts [4]
+    = false := by decide +kernel
 
 /-- Full statement for hierarchical conjunctive thresholds, about the model's `hierMSP`
 (= `hierarchical.InducedMSP`, Birkhoff–Vandermonde rows) under the constructor's checks and
@@ -422,8 +551,9 @@ programmes and arbitrary `t`-of-`n` gates, hence for any AND/OR/threshold nestin
 leaves*): after replacing row `z₀` by a `t`-of-children gate (`lcwInsert`, one iteration of
 `boolexpr.convert`), the rows `R` (not containing `z₀`) together with the children `K` span the
 target iff, in the old programme, `R` together with `z₀` — usable exactly when at least `t`
-children are present — spans it.  Missing for `lcw_statement`: the induction over `lcwRun` on the
-list-based model and the case of one shareholder labelling several leaves. -/
+children are present — spans it.  (Mathlib-matrix form of one step; the induction over `lcwRun` on the
+list-based model, including shareholders labelling several leaves, is `lcw_holds`, whose step is the
+list form `Lemmas.SharingInsert.insert_spans` of this lemma.) -/
 theorem lcw_insertion_partial (M : Matrix ρ δ F) (z : δ) (z₀ : ρ) (x : ι → F) (hx : Function.Injective x)
     (hx0 : ∀ i, x i ≠ 0) (t : ℕ) (ht : 0 < t) (R : Finset ρ) (hR : z₀ ∉ R) (K : Finset ι) :
     (∃ c' : ρ ⊕ ι → F, (∀ r ∉ R, c' (.inl r) = 0) ∧ (∀ i ∉ K, c' (.inr i) = 0) ∧
